@@ -4,7 +4,8 @@ import re
 import logging
 
 from .util import (Source, print_dump, get_marked_atribute, split_pkg, marked, unmark,
-                   get_marked_name, get_marked_import, get_all_usages, join_pkg)
+                   get_marked_name, get_marked_import, get_all_usages, join_pkg,
+                   SOURCE_MARK)
 from .evaluator import EvalCtx
 from .nast import extract_scope
 
@@ -68,12 +69,22 @@ def _loc(location, filename):
     return {'loc': location, 'file': filename}
 
 
-def _name_loc(name):
+def _name_loc(name, marked_scope=None, position=None):
     # builtins, compiled modules and other runtime objects have no source position
     try:
-        return _loc(name.declared_at, name.filename)
+        location, filename = name.declared_at, name.filename
     except AttributeError:
         return None
+
+    scope = getattr(name, 'scope', None) or name
+    if marked_scope is not None and getattr(scope, 'top', None) is marked_scope:
+        # positions of the analysed source were taken with the cursor mark
+        # spliced in: undo the shift to the right of the cursor
+        ln, col = location
+        if ln == position[0] and col > position[1]:
+            location = ln, col - len(SOURCE_MARK)
+
+    return _loc(location, filename)
 
 
 def location(project, source, position, filename=None, debug=False):
@@ -115,10 +126,10 @@ def location(project, source, position, filename=None, debug=False):
     locs = []
     for r in result:
         if isinstance(r, list):
-            alts = [_name_loc(n) for n in r]
+            alts = [_name_loc(n, scope, position) for n in r]
             locs.append([l for l in alts if l])
         else:
-            loc = _name_loc(r)
+            loc = _name_loc(r, scope, position)
             if loc:
                 locs.append(loc)
 
